@@ -109,13 +109,17 @@ func (f *SimFSM) Apply(l *raft.Log) interface{} {
 }
 
 type simFSMSnapshot struct {
-	data []byte
+	data       []byte
+	leaveClose bool // the FSM leaves closing the sink to the library (takeSnapshot closes it after Persist)
 }
 
 func (s *simFSMSnapshot) Persist(sink raft.SnapshotSink) error {
 	if _, err := sink.Write(s.data); err != nil {
 		_ = sink.Cancel()
 		return err
+	}
+	if s.leaveClose {
+		return nil
 	}
 	return sink.Close()
 }
@@ -153,7 +157,7 @@ func (f *SimFSM) Snapshot() (raft.FSMSnapshot, error) {
 	if !f.dead() {
 		f.inc.node.c.Tr.Emit("fsm", f.inc.node.ID, M{"op": "snapshot", "idx": li, "content": strs(c)})
 	}
-	return &simFSMSnapshot{data: encodeContent(c)}, nil
+	return &simFSMSnapshot{data: encodeContent(c), leaveClose: f.inc.node.c.Opt.Seed%3 == 1}, nil
 }
 
 func (f *SimFSM) Restore(rc io.ReadCloser) error {
